@@ -585,7 +585,7 @@ def run_harness(hname, tier="quick", seed=0, only=None):
             "source_tree": shims.src_root(),
             "functions_encoded": functions,
             "configurations": len(cfgs),
-            "bounds": hmod.bounds(tier) if hasattr(hmod, "bounds") else {},
+            "bounds": _bounds_with_modes(hmod, tier, cfgs),
             "paths_total": tot["paths"],
             "paths_infeasible_pruned": tot["infeasible"],
             "assertions_evaluated": tot["checks"],
@@ -619,6 +619,21 @@ def run_harness(hname, tier="quick", seed=0, only=None):
     if unknown_checks or tot["maybe"] or dropped or hang_incon:
         print("  not covered:", incomplete)
     return status
+
+
+def _bounds_with_modes(hmod, tier, cfgs):
+    b = dict(hmod.bounds(tier)) if hasattr(hmod, "bounds") else {}
+    kinds = {}
+    for c in cfgs:
+        k = c["name"].split("-")[0]
+        kinds[k] = kinds.get(k, 0) + 1
+    b["configurations_by_kind"] = kinds
+    pre = [c for c in cfgs if c.get("prefix")]
+    if pre:
+        b["mode_B"] = {"configurations": len(pre), "what": "concrete box [-1,3]^d, concrete objective-like rewards and concrete RNG draws for the first P rounds, then k fully symbolic rounds",
+                       "prefix_lengths_P": sorted(set(c["prefix"]["P"] for c in pre)), "symbolic_rounds_k": sorted(set(c["prefix"]["k"] for c in pre)),
+                       "algorithms": sorted(set(c.get("algo", "?") for c in pre)), "prefix_seeds": sorted(set(c["prefix"].get("seed", 0) for c in pre))}
+    return b
 
 
 DEFAULT_PATH_BUDGET = {"quick": None, "thorough": 8000}
